@@ -1,6 +1,1024 @@
-pub fn gen(_seed: u64, _thorough: bool) -> Vec<String> {
-    vec![]
+//! C04: uncompressed, packed, sub-sampled and bi-planar formats decode to the ideal values.
+//!
+//! Case line (see also `Drv/C04.lean`):
+//!
+//! `D <format> <channels> <prec> <w> <h> <spec> [<spec2>]`
+//!
+//! `<spec>` generates the encoded units (pixels / 2x1 blocks / 8x1 blocks / plane-1 elements,
+//! `<spec2>`: plane-2 elements), unit `i`:
+//!   `S:<start>`                       (start + i) mod 2^bits
+//!   `W:<off>:<width>:<base>:<start>`  base (hex) with bits [off,off+width) := (start+i) mod 2^width
+//!   `R:<seed>`                        splitmix64 words
+//!   `H:<hex>,<hex>,...`               listed values, cyclically
+//!
+//! Result: `ok` + every channel of every pixel in hex (f32 as bit pattern, NaN as `nan`).
+//!
+//! Oracle: an independent transcription of the format layouts plus exact rational arithmetic
+//! (i128) for the ideal value of every channel; integer outputs must be a nearest code, f32 outputs
+//! of exactly characterisable conversions must be the correctly rounded binary32 (own software
+//! rounding, no `f32` arithmetic anywhere in the oracle), YUV outputs and integer outputs of
+//! float-valued fields must be nearest up to the stated tie tolerance TAU.
+use crate::common::*;
+use dds::*;
+
+#[derive(Clone, Copy, PartialEq, Debug)]
+enum Comp {
+    R,
+    G,
+    B,
+    A,
+    Y,
+    U,
+    V,
+    E,
 }
-pub fn run(_line: &str) -> Option<(String, Vec<String>)> {
-    None
+#[derive(Clone, Copy, PartialEq, Debug)]
+enum Kind {
+    Unorm,
+    Snorm,
+    Half,
+    F11,
+    F10,
+    F32,
+    Xr,
+    Mant,
+    Exp,
+    Yuv,
+}
+#[derive(Clone, Copy, Debug)]
+struct Field {
+    comp: Comp,
+    px: Option<u8>,
+    off: u32,
+    width: u32,
+    kind: Kind,
+}
+#[derive(Clone, Copy, PartialEq, Debug)]
+enum Color {
+    Direct,
+    Yuv(u32),
+    Shared,
+}
+#[derive(Clone, Debug)]
+struct Fmt {
+    name: &'static str,
+    format: Format,
+    unit_bytes: usize,
+    ppu: usize,
+    fields: Vec<Field>,
+    color: Color,
+    native: Channels,
+    blue_half: bool,
+    planar: Option<(usize, usize)>,
+}
+
+fn f(comp: Comp, off: u32, width: u32, kind: Kind) -> Field {
+    Field { comp, px: None, off, width, kind }
+}
+fn fp(comp: Comp, px: u8, off: u32, width: u32, kind: Kind) -> Field {
+    Field { comp, px: Some(px), off, width, kind }
+}
+
+/// The documented layouts (DXGI_FORMAT / Microsoft YUV format pages): components are listed from
+/// the least significant bit of the little-endian unit upwards.
+fn lsb_first(kind: Kind, comps: &[(Comp, u32)]) -> Vec<Field> {
+    let mut off = 0;
+    let mut v = vec![];
+    for &(c, w) in comps {
+        v.push(f(c, off, w, kind));
+        off += w;
+    }
+    v
+}
+
+fn table() -> Vec<Fmt> {
+    use Channels::*;
+    use Comp::*;
+    use Kind::*;
+    let mk = |name, format, unit_bytes, fields, native| Fmt {
+        name,
+        format,
+        unit_bytes,
+        ppu: 1,
+        fields,
+        color: Color::Direct,
+        native,
+        blue_half: false,
+        planar: None,
+    };
+    let mut t = vec![
+        mk("R8G8B8_UNORM", Format::R8G8B8_UNORM, 3, lsb_first(Unorm, &[(R, 8), (G, 8), (B, 8)]), Rgb),
+        mk("B8G8R8_UNORM", Format::B8G8R8_UNORM, 3, lsb_first(Unorm, &[(B, 8), (G, 8), (R, 8)]), Rgb),
+        mk("R8G8B8A8_UNORM", Format::R8G8B8A8_UNORM, 4, lsb_first(Unorm, &[(R, 8), (G, 8), (B, 8), (A, 8)]), Rgba),
+        mk("R8G8B8A8_SNORM", Format::R8G8B8A8_SNORM, 4, lsb_first(Snorm, &[(R, 8), (G, 8), (B, 8), (A, 8)]), Rgba),
+        mk("B8G8R8A8_UNORM", Format::B8G8R8A8_UNORM, 4, lsb_first(Unorm, &[(B, 8), (G, 8), (R, 8), (A, 8)]), Rgba),
+        mk("B8G8R8X8_UNORM", Format::B8G8R8X8_UNORM, 4, lsb_first(Unorm, &[(B, 8), (G, 8), (R, 8)]), Rgb),
+        mk("B5G6R5_UNORM", Format::B5G6R5_UNORM, 2, lsb_first(Unorm, &[(B, 5), (G, 6), (R, 5)]), Rgb),
+        mk("B5G5R5A1_UNORM", Format::B5G5R5A1_UNORM, 2, lsb_first(Unorm, &[(B, 5), (G, 5), (R, 5), (A, 1)]), Rgba),
+        mk("B4G4R4A4_UNORM", Format::B4G4R4A4_UNORM, 2, lsb_first(Unorm, &[(B, 4), (G, 4), (R, 4), (A, 4)]), Rgba),
+        mk("A4B4G4R4_UNORM", Format::A4B4G4R4_UNORM, 2, lsb_first(Unorm, &[(A, 4), (B, 4), (G, 4), (R, 4)]), Rgba),
+        mk("R8_SNORM", Format::R8_SNORM, 1, lsb_first(Snorm, &[(R, 8)]), Grayscale),
+        mk("R8_UNORM", Format::R8_UNORM, 1, lsb_first(Unorm, &[(R, 8)]), Grayscale),
+        mk("R8G8_UNORM", Format::R8G8_UNORM, 2, lsb_first(Unorm, &[(R, 8), (G, 8)]), Rgb),
+        mk("R8G8_SNORM", Format::R8G8_SNORM, 2, lsb_first(Snorm, &[(R, 8), (G, 8)]), Rgb),
+        mk("A8_UNORM", Format::A8_UNORM, 1, lsb_first(Unorm, &[(A, 8)]), Alpha),
+        mk("R16_UNORM", Format::R16_UNORM, 2, lsb_first(Unorm, &[(R, 16)]), Grayscale),
+        mk("R16_SNORM", Format::R16_SNORM, 2, lsb_first(Snorm, &[(R, 16)]), Grayscale),
+        mk("R16G16_UNORM", Format::R16G16_UNORM, 4, lsb_first(Unorm, &[(R, 16), (G, 16)]), Rgb),
+        mk("R16G16_SNORM", Format::R16G16_SNORM, 4, lsb_first(Snorm, &[(R, 16), (G, 16)]), Rgb),
+        mk("R16G16B16A16_UNORM", Format::R16G16B16A16_UNORM, 8, lsb_first(Unorm, &[(R, 16), (G, 16), (B, 16), (A, 16)]), Rgba),
+        mk("R16G16B16A16_SNORM", Format::R16G16B16A16_SNORM, 8, lsb_first(Snorm, &[(R, 16), (G, 16), (B, 16), (A, 16)]), Rgba),
+        mk("R10G10B10A2_UNORM", Format::R10G10B10A2_UNORM, 4, lsb_first(Unorm, &[(R, 10), (G, 10), (B, 10), (A, 2)]), Rgba),
+        mk("R11G11B10_FLOAT", Format::R11G11B10_FLOAT, 4, vec![f(R, 0, 11, F11), f(G, 11, 11, F11), f(B, 22, 10, F10)], Rgb),
+        mk("R9G9B9E5_SHAREDEXP", Format::R9G9B9E5_SHAREDEXP, 4, vec![f(R, 0, 9, Mant), f(G, 9, 9, Mant), f(B, 18, 9, Mant), f(E, 27, 5, Exp)], Rgb),
+        mk("R16_FLOAT", Format::R16_FLOAT, 2, lsb_first(Half, &[(R, 16)]), Grayscale),
+        mk("R16G16_FLOAT", Format::R16G16_FLOAT, 4, lsb_first(Half, &[(R, 16), (G, 16)]), Rgb),
+        mk("R16G16B16A16_FLOAT", Format::R16G16B16A16_FLOAT, 8, lsb_first(Half, &[(R, 16), (G, 16), (B, 16), (A, 16)]), Rgba),
+        mk("R32_FLOAT", Format::R32_FLOAT, 4, lsb_first(F32, &[(R, 32)]), Grayscale),
+        mk("R32G32_FLOAT", Format::R32G32_FLOAT, 8, lsb_first(F32, &[(R, 32), (G, 32)]), Rgb),
+        mk("R32G32B32_FLOAT", Format::R32G32B32_FLOAT, 12, lsb_first(F32, &[(R, 32), (G, 32), (B, 32)]), Rgb),
+        mk("R32G32B32A32_FLOAT", Format::R32G32B32A32_FLOAT, 16, lsb_first(F32, &[(R, 32), (G, 32), (B, 32), (A, 32)]), Rgba),
+        mk("R10G10B10_XR_BIAS_A2_UNORM", Format::R10G10B10_XR_BIAS_A2_UNORM, 4, vec![f(R, 0, 10, Xr), f(G, 10, 10, Xr), f(B, 20, 10, Xr), f(A, 30, 2, Unorm)], Rgba),
+        // AYUV: byte 0 = V, 1 = U, 2 = Y, 3 = A
+        mk("AYUV", Format::AYUV, 4, vec![f(V, 0, 8, Yuv), f(U, 8, 8, Yuv), f(Y, 16, 8, Yuv), f(A, 24, 8, Unorm)], Rgba),
+        // Y410: bits 0-9 U, 10-19 Y, 20-29 V, 30-31 A
+        mk("Y410", Format::Y410, 4, vec![f(U, 0, 10, Yuv), f(Y, 10, 10, Yuv), f(V, 20, 10, Yuv), f(A, 30, 2, Unorm)], Rgba),
+        // Y416: words U, Y, V, A
+        mk("Y416", Format::Y416, 8, vec![f(U, 0, 16, Yuv), f(Y, 16, 16, Yuv), f(V, 32, 16, Yuv), f(A, 48, 16, Unorm)], Rgba),
+        // R1: most significant bit = leftmost pixel
+        mk("R1_UNORM", Format::R1_UNORM, 1, (0..8).map(|i| fp(R, i as u8, 7 - i, 1, Unorm)).collect(), Grayscale),
+        mk("R8G8_B8G8_UNORM", Format::R8G8_B8G8_UNORM, 4, vec![f(R, 0, 8, Unorm), fp(G, 0, 8, 8, Unorm), f(B, 16, 8, Unorm), fp(G, 1, 24, 8, Unorm)], Rgb),
+        mk("G8R8_G8B8_UNORM", Format::G8R8_G8B8_UNORM, 4, vec![fp(G, 0, 0, 8, Unorm), f(R, 8, 8, Unorm), fp(G, 1, 16, 8, Unorm), f(B, 24, 8, Unorm)], Rgb),
+        mk("UYVY", Format::UYVY, 4, vec![f(U, 0, 8, Yuv), fp(Y, 0, 8, 8, Yuv), f(V, 16, 8, Yuv), fp(Y, 1, 24, 8, Yuv)], Rgb),
+        mk("YUY2", Format::YUY2, 4, vec![fp(Y, 0, 0, 8, Yuv), f(U, 8, 8, Yuv), fp(Y, 1, 16, 8, Yuv), f(V, 24, 8, Yuv)], Rgb),
+        // Y210: words Y0 U Y1 V, the 10 significant bits are the upper bits of each word
+        mk("Y210", Format::Y210, 8, vec![fp(Y, 0, 6, 10, Yuv), f(U, 22, 10, Yuv), fp(Y, 1, 38, 10, Yuv), f(V, 54, 10, Yuv)], Rgb),
+        mk("Y216", Format::Y216, 8, vec![fp(Y, 0, 0, 16, Yuv), f(U, 16, 16, Yuv), fp(Y, 1, 32, 16, Yuv), f(V, 48, 16, Yuv)], Rgb),
+        // bi-planar: unit = luma element followed by the (U, V) element
+        mk("NV12", Format::NV12, 3, vec![f(Y, 0, 8, Yuv), f(U, 8, 8, Yuv), f(V, 16, 8, Yuv)], Rgb),
+        mk("P010", Format::P010, 6, vec![f(Y, 6, 10, Yuv), f(U, 22, 10, Yuv), f(V, 38, 10, Yuv)], Rgb),
+        mk("P016", Format::P016, 6, vec![f(Y, 0, 16, Yuv), f(U, 16, 16, Yuv), f(V, 32, 16, Yuv)], Rgb),
+    ];
+    for fm in t.iter_mut() {
+        match fm.name {
+            "R8G8_SNORM" | "R16G16_SNORM" => fm.blue_half = true,
+            "R9G9B9E5_SHAREDEXP" => fm.color = Color::Shared,
+            "AYUV" | "UYVY" | "YUY2" | "NV12" => fm.color = Color::Yuv(8),
+            "Y410" | "Y210" | "P010" => fm.color = Color::Yuv(10),
+            "Y416" | "Y216" | "P016" => fm.color = Color::Yuv(16),
+            _ => {}
+        }
+        match fm.name {
+            "R1_UNORM" => fm.ppu = 8,
+            "R8G8_B8G8_UNORM" | "G8R8_G8B8_UNORM" | "UYVY" | "YUY2" | "Y210" | "Y216" => fm.ppu = 2,
+            "NV12" => fm.planar = Some((1, 2)),
+            "P010" | "P016" => fm.planar = Some((2, 4)),
+            _ => {}
+        }
+    }
+    t
+}
+
+// ------------------------------------------------------------------------------------------
+// unit generators (wide units as little-endian byte vectors via u128 pairs)
+
+/// 256-bit little-endian value as 4 x u64 (units are at most 128 bits, W specs stay inside)
+type Wide = [u64; 4];
+
+fn splitmix(seed: u64, i: u64) -> u64 {
+    let mut z = seed.wrapping_add((i.wrapping_add(1)).wrapping_mul(0x9E37_79B9_7F4A_7C15));
+    z = (z ^ (z >> 30)).wrapping_mul(0xBF58_476D_1CE4_E5B9);
+    z = (z ^ (z >> 27)).wrapping_mul(0x94D0_49BB_1331_11EB);
+    z ^ (z >> 31)
+}
+
+fn hex_wide(s: &str) -> Option<u128> {
+    if s.is_empty() || s.len() > 32 {
+        return None;
+    }
+    u128::from_str_radix(s, 16).ok()
+}
+
+fn mask_bits(v: u128, bits: usize) -> u128 {
+    if bits >= 128 {
+        v
+    } else {
+        v & ((1u128 << bits) - 1)
+    }
+}
+
+enum Spec {
+    S(u128),
+    W { off: u32, width: u32, base: u128, start: u128 },
+    R(u64),
+    H(Vec<u128>),
+}
+impl Spec {
+    fn parse(s: &str) -> Option<Spec> {
+        let p: Vec<&str> = s.split(':').collect();
+        match (p[0], p.len()) {
+            ("S", 2) => Some(Spec::S(p[1].parse().ok()?)),
+            ("W", 5) => {
+                let off: u32 = p[1].parse().ok()?;
+                let width: u32 = p[2].parse().ok()?;
+                if off + width > 128 || width == 0 || width > 64 {
+                    return None;
+                }
+                Some(Spec::W { off, width, base: hex_wide(p[3])?, start: p[4].parse().ok()? })
+            }
+            ("R", 2) => Some(Spec::R(p[1].parse().ok()?)),
+            ("H", 2) => {
+                let v: Option<Vec<u128>> = p[1].split(',').map(hex_wide).collect();
+                let v = v?;
+                if v.is_empty() {
+                    None
+                } else {
+                    Some(Spec::H(v))
+                }
+            }
+            _ => None,
+        }
+    }
+    fn unit(&self, i: u64, bits: usize) -> u128 {
+        let v = match self {
+            Spec::S(start) => start.wrapping_add(i as u128),
+            Spec::W { off, width, base, start } => {
+                let m = ((1u128 << width) - 1) << off;
+                let base = mask_bits(*base, bits);
+                let val = (start.wrapping_add(i as u128)) & ((1u128 << width) - 1);
+                (base & !m) | (val << off)
+            }
+            Spec::R(seed) => splitmix(*seed, 2 * i) as u128 | ((splitmix(*seed, 2 * i + 1) as u128) << 64),
+            Spec::H(v) => v[(i % v.len() as u64) as usize],
+        };
+        mask_bits(v, bits)
+    }
+}
+
+fn ch_name(c: Channels) -> &'static str {
+    match c {
+        Channels::Grayscale => "gray",
+        Channels::Alpha => "alpha",
+        Channels::Rgb => "rgb",
+        Channels::Rgba => "rgba",
+    }
+}
+fn ch_parse(s: &str) -> Option<Channels> {
+    Some(match s {
+        "gray" => Channels::Grayscale,
+        "alpha" => Channels::Alpha,
+        "rgb" => Channels::Rgb,
+        "rgba" => Channels::Rgba,
+        _ => return None,
+    })
+}
+fn prec_of(p: u32) -> Option<Precision> {
+    Some(match p {
+        0 => Precision::U8,
+        1 => Precision::U16,
+        2 => Precision::F32,
+        _ => return None,
+    })
+}
+
+// ------------------------------------------------------------------------------------------
+// exact arithmetic of the oracle
+
+/// ideal value of one component
+#[derive(Clone, Copy, Debug)]
+enum Val {
+    /// num / den, den > 0
+    Rat(i128, i128),
+    Inf(bool),
+    NaN,
+    /// a raw binary32 bit pattern (32-bit float fields): handled by cases, never expanded
+    Bits(u32),
+}
+
+fn pow2(k: u32) -> i128 {
+    1i128 << k
+}
+
+/// value of a 5-bit-exponent small float with `mb` mantissa bits (half: mb = 10 + sign)
+fn small_float(x: u32, mb: u32, signed: bool) -> Val {
+    let mant = (x & ((1 << mb) - 1)) as i128;
+    let exp = (x >> mb) & 31;
+    let neg = signed && (x >> (mb + 5)) & 1 == 1;
+    if exp == 31 {
+        return if mant == 0 { Val::Inf(neg) } else { Val::NaN };
+    }
+    // denormal: mant * 2^(1-15-mb); normal: (2^mb + mant) * 2^(exp-15-mb)
+    let (m, e) = if exp == 0 { (mant, 1 - 15 - mb as i32) } else { (mant + pow2(mb), exp as i32 - 15 - mb as i32) };
+    let m = if neg { -m } else { m };
+    if e >= 0 {
+        Val::Rat(m * pow2(e as u32), 1)
+    } else {
+        Val::Rat(m, pow2((-e) as u32))
+    }
+}
+
+fn field_val(word: &Wide, fld: &Field) -> u64 {
+    // fields never straddle more than two 64-bit limbs
+    let limb = (fld.off / 64) as usize;
+    let sh = fld.off % 64;
+    let mut v = word[limb] >> sh;
+    if sh + fld.width > 64 {
+        v |= word[limb + 1] << (64 - sh);
+    }
+    if fld.width < 64 {
+        v &= (1u64 << fld.width) - 1;
+    }
+    v
+}
+
+fn ideal_of_field(fld: &Field, v: u64) -> Val {
+    match fld.kind {
+        Kind::Unorm => Val::Rat(v as i128, pow2(fld.width) - 1),
+        Kind::Snorm => {
+            let m = pow2(fld.width - 1) - 1;
+            let mut s = v as i128;
+            if s >= pow2(fld.width - 1) {
+                s -= pow2(fld.width);
+            }
+            if s < -m {
+                s = -m;
+            }
+            Val::Rat(s + m, 2 * m)
+        }
+        Kind::Half => small_float(v as u32, 10, true),
+        Kind::F11 => small_float(v as u32, 6, false),
+        Kind::F10 => small_float(v as u32, 5, false),
+        Kind::F32 => Val::Bits(v as u32),
+        Kind::Xr => Val::Rat(v as i128 - 384, 510),
+        Kind::Mant | Kind::Exp | Kind::Yuv => Val::Rat(v as i128, 1),
+    }
+}
+
+/// tie tolerance in normalised units: 2^-12 of an 8-bit step
+const TAU_DEN: i128 = 4096 * 255;
+
+/// clamp an ideal value to [0,1] (NaN -> 0, the crate's documented convention for float inputs)
+fn clamp01(v: Val) -> (i128, i128) {
+    match v {
+        Val::NaN => (0, 1),
+        Val::Inf(neg) => {
+            if neg {
+                (0, 1)
+            } else {
+                (1, 1)
+            }
+        }
+        Val::Rat(n, d) => {
+            if n <= 0 {
+                (0, 1)
+            } else if n >= d {
+                (1, 1)
+            } else {
+                (n, d)
+            }
+        }
+        Val::Bits(b) => {
+            let exp = (b >> 23) & 0xff;
+            let frac = (b & 0x7f_ffff) as i128;
+            if exp == 255 {
+                return if frac != 0 || b >> 31 == 1 { (0, 1) } else { (1, 1) };
+            }
+            if b >> 31 == 1 || (exp == 0 && frac == 0) {
+                return (0, 1);
+            }
+            if exp >= 127 {
+                return (1, 1);
+            }
+            let (m, e) = if exp == 0 { (frac, -149) } else { (frac + (1 << 23), exp as i32 - 150) };
+            // 0 < x < 1.  Below 2^-60 the admissible codes are exactly those of 0 (see notes/C04.md).
+            if e < -84 {
+                return (0, 1);
+            }
+            (m, pow2((-e) as u32))
+        }
+    }
+}
+
+/// `code` (0..=max) is a nearest code of `num/den` in [0,1]; with `tol`, up to TAU
+fn int_ok(code: i128, max: i128, num: i128, den: i128, tol: bool) -> bool {
+    // |code/max - num/den| <= 1/(2 max) (+ 1/TAU_DEN)
+    let diff = (code * den - num * max).abs();
+    if !tol {
+        2 * diff <= den
+    } else {
+        // 2 T diff <= den (T + 2 max), T = TAU_DEN;  keep inside i128: den <= 2^84 only for tiny
+        // float inputs, reduce those first
+        let (diff, den) = if den > pow2(60) { (diff >> 30, den >> 30) } else { (diff, den) };
+        2 * TAU_DEN * diff <= den * (TAU_DEN + 2 * max)
+    }
+}
+
+/// correctly rounded binary32 (round to nearest even) of num/den, den > 0 — integer arithmetic only
+fn round_f32(num: i128, den: i128) -> u32 {
+    if num == 0 {
+        return 0;
+    }
+    let sign: u32 = if num < 0 { 0x8000_0000 } else { 0 };
+    let n = num.unsigned_abs();
+    let d = den as u128;
+    // find e with 2^e <= n/d < 2^(e+1)
+    let mut e: i32 = (127 - n.leading_zeros() as i32) - (127 - d.leading_zeros() as i32);
+    let ge = |e: i32| -> bool {
+        // n/d >= 2^e ?
+        if e >= 0 {
+            n >= d << e as u32
+        } else {
+            (n << (-e) as u32) >= d
+        }
+    };
+    if !ge(e) {
+        e -= 1;
+    }
+    debug_assert!(ge(e) && !ge(e + 1));
+    // unit in the last place 2^q
+    let q = if e >= -126 { e - 23 } else { -149 };
+    // mant = round(n / (d 2^q))
+    assert!(q > -90 && q < 60, "round_f32: magnitude outside the oracle's range");
+    let (nn, dd) = if q >= 0 { (n, d << q as u32) } else { (n << (-q) as u32, d) };
+    let mut mant = nn / dd;
+    let rem = nn % dd;
+    if 2 * rem > dd || (2 * rem == dd && mant & 1 == 1) {
+        mant += 1;
+    }
+    let bits: u128 = if e >= -126 { (((e + 126) as u128) << 23) + mant } else { mant };
+    if bits >= 0x7f80_0000 {
+        sign | 0x7f80_0000
+    } else {
+        sign | bits as u32
+    }
+}
+
+/// exact value m * 2^e of a finite binary32
+fn f32_parts(b: u32) -> Option<(i128, i32)> {
+    let exp = (b >> 23) & 0xff;
+    let frac = (b & 0x7f_ffff) as i128;
+    if exp == 255 {
+        return None;
+    }
+    let (m, e) = if exp == 0 { (frac, -149) } else { (frac + (1 << 23), exp as i32 - 150) };
+    Some((if b >> 31 == 1 { -m } else { m }, e))
+}
+
+fn is_nan(b: u32) -> bool {
+    (b >> 23) & 0xff == 255 && b & 0x7f_ffff != 0
+}
+
+/// how a channel value has to relate to its ideal
+#[derive(Clone, Copy, PartialEq, Debug)]
+enum Class {
+    /// integer: a nearest code; f32: the correctly rounded value
+    Exact,
+    /// nearest up to TAU
+    Tol,
+}
+
+struct Expect {
+    val: Val,
+    class: Class,
+}
+
+fn check_channel(out: u32, prec: u32, ex: &Expect) -> Result<(), String> {
+    match prec {
+        0 | 1 => {
+            let max: i128 = if prec == 0 { 255 } else { 65535 };
+            let (n, d) = clamp01(ex.val);
+            if int_ok(out as i128, max, n, d, ex.class == Class::Tol) {
+                Ok(())
+            } else {
+                Err(format!("code {out} is not nearest to {n}/{d} * {max}"))
+            }
+        }
+        _ => match (ex.val, ex.class) {
+            (Val::NaN, _) => {
+                if is_nan(out) {
+                    Ok(())
+                } else {
+                    Err(format!("{out:08x} should be NaN"))
+                }
+            }
+            (Val::Inf(neg), _) => {
+                let want = if neg { 0xff80_0000 } else { 0x7f80_0000 };
+                if out == want {
+                    Ok(())
+                } else {
+                    Err(format!("{out:08x} should be {want:08x}"))
+                }
+            }
+            (Val::Bits(b), _) => {
+                if is_nan(b) && is_nan(out) || out == b {
+                    Ok(())
+                } else {
+                    Err(format!("{out:08x} should be the input {b:08x}"))
+                }
+            }
+            (Val::Rat(n, d), Class::Exact) => {
+                let want = round_f32(n, d);
+                if out == want || (out << 1 == 0 && want << 1 == 0) {
+                    Ok(())
+                } else {
+                    Err(format!("{out:08x} is not the nearest f32 {want:08x} of {n}/{d}"))
+                }
+            }
+            (Val::Rat(n, d), Class::Tol) => {
+                // |out - n/d| <= TAU + 2^-24
+                let Some((m, e)) = f32_parts(out) else {
+                    return Err(format!("{out:08x} is not finite"));
+                };
+                let (m, e) = if e < -60 { (0, 0) } else { (m, e) };
+                // out = m 2^e, e in [-60, ..]; outputs are in [0,1] so e <= -23 unless wrong
+                if e > 0 {
+                    return Err(format!("{out:08x} out of range"));
+                }
+                let s = pow2((-e) as u32); // out = m / s
+                // |m d - n s| / (s d) <= 1/T + 1/2^24   <=>  |m d - n s| T 2^24 <= s d (2^24 + T)
+                let diff = (m * d - n * s).abs();
+                // magnitudes: d <= 2^36, s <= 2^60: reduce s by shifting when large
+                let (diff, s2) = if s > pow2(40) { (diff >> 30, s >> 30) } else { (diff, s) };
+                if diff.checked_mul(TAU_DEN << 24).map(|l| l <= s2 * d * ((1 << 24) + TAU_DEN)).unwrap_or(false) {
+                    Ok(())
+                } else {
+                    Err(format!("{out:08x} is farther than TAU from {n}/{d}"))
+                }
+            }
+        },
+    }
+}
+
+/// the ideal native-order channels of pixel `p` of unit `word`
+fn ideal_pixel(fm: &Fmt, word: &Wide, p: usize) -> Vec<Expect> {
+    let find = |c: Comp| fm.fields.iter().find(|f| f.comp == c && (f.px.is_none() || f.px == Some(p as u8)));
+    let direct = |c: Comp| -> Expect {
+        match find(c) {
+            Some(fld) => {
+                let v = ideal_of_field(fld, field_val(word, fld));
+                // integer outputs of float-valued fields are evaluated in f32 by the library
+                Expect { val: v, class: Class::Exact }
+            }
+            None => Expect {
+                val: match c {
+                    Comp::A => Val::Rat(1, 1),
+                    Comp::B if fm.blue_half => Val::Rat(1, 2),
+                    _ => Val::Rat(0, 1),
+                },
+                class: Class::Exact,
+            },
+        }
+    };
+    let raw = |c: Comp| -> i128 { find(c).map(|f| field_val(word, f) as i128).unwrap_or(0) };
+    match fm.color {
+        Color::Direct => {
+            let comps: &[Comp] = match fm.native {
+                Channels::Grayscale => &[Comp::R],
+                Channels::Alpha => &[Comp::A],
+                Channels::Rgb => &[Comp::R, Comp::G, Comp::B],
+                Channels::Rgba => &[Comp::R, Comp::G, Comp::B, Comp::A],
+            };
+            comps.iter().map(|&c| direct(c)).collect()
+        }
+        Color::Yuv(bits) => {
+            let (oy, oc, max): (i128, i128, i128) = match bits {
+                8 => (16, 128, 255),
+                10 => (64, 512, 1023),
+                _ => (4096, 32768, 65535),
+            };
+            let (c, d, e) = (raw(Comp::Y) - oy, raw(Comp::U) - oc, raw(Comp::V) - oc);
+            // BT.601 limited range, constants as printed by Microsoft (6 decimals)
+            let r = 1_164_383 * c + 1_596_027 * e;
+            let g = 1_164_383 * c - 391_762 * d - 812_968 * e;
+            let b = 1_164_383 * c + 2_017_232 * d;
+            let den = 1_000_000 * max;
+            let mut v: Vec<Expect> = [r, g, b]
+                .iter()
+                .map(|&n| {
+                    let (n, d) = clamp01(Val::Rat(n, den));
+                    Expect { val: Val::Rat(n, d), class: Class::Tol }
+                })
+                .collect();
+            if fm.native == Channels::Rgba {
+                v.push(direct(Comp::A));
+            }
+            v
+        }
+        Color::Shared => {
+            let e = raw(Comp::E) as i32 - 24;
+            [Comp::R, Comp::G, Comp::B]
+                .iter()
+                .map(|&c| {
+                    let m = raw(c);
+                    let val = if e >= 0 { Val::Rat(m * pow2(e as u32), 1) } else { Val::Rat(m, pow2((-e) as u32)) };
+                    Expect { val, class: Class::Exact }
+                })
+                .collect()
+        }
+    }
+}
+
+/// integer outputs of fields whose conversion the library evaluates in f32 get the tolerance
+fn class_for(fm: &Fmt, prec: u32, comp_kind: Option<Kind>, base: Class) -> Class {
+    if prec < 2 {
+        if fm.color == Color::Shared {
+            return Class::Tol;
+        }
+        if let Some(k) = comp_kind {
+            if matches!(k, Kind::Half | Kind::F11 | Kind::F10 | Kind::F32) {
+                return Class::Tol;
+            }
+        }
+    }
+    base
+}
+
+fn native_comp_kinds(fm: &Fmt) -> Vec<Option<Kind>> {
+    let comps: &[Comp] = match fm.native {
+        Channels::Grayscale => &[Comp::R],
+        Channels::Alpha => &[Comp::A],
+        Channels::Rgb => &[Comp::R, Comp::G, Comp::B],
+        Channels::Rgba => &[Comp::R, Comp::G, Comp::B, Comp::A],
+    };
+    comps.iter().map(|&c| fm.fields.iter().find(|f| f.comp == c).map(|f| f.kind)).collect()
+}
+
+/// documented meaning of asking for other channels than the native ones
+fn convert_expect(native: Channels, target: Channels, v: Vec<Expect>) -> Vec<Expect> {
+    use Channels::*;
+    let zero = || Expect { val: Val::Rat(0, 1), class: Class::Exact };
+    let one = || Expect { val: Val::Rat(1, 1), class: Class::Exact };
+    let cp = |e: &Expect| Expect { val: e.val, class: e.class };
+    match (native, target) {
+        (a, b) if a == b => v,
+        (Grayscale, Alpha) | (Rgb, Alpha) => vec![one()],
+        (Alpha, Grayscale) => vec![zero()],
+        (Alpha, Rgb) => vec![zero(), zero(), zero()],
+        (Grayscale, Rgb) => vec![cp(&v[0]), cp(&v[0]), cp(&v[0])],
+        (Grayscale, Rgba) => vec![cp(&v[0]), cp(&v[0]), cp(&v[0]), one()],
+        (Alpha, Rgba) => vec![zero(), zero(), zero(), cp(&v[0])],
+        (Rgb, Grayscale) | (Rgba, Grayscale) => vec![cp(&v[0])],
+        (Rgb, Rgba) => vec![cp(&v[0]), cp(&v[1]), cp(&v[2]), one()],
+        (Rgba, Alpha) => vec![cp(&v[3])],
+        (Rgba, Rgb) => vec![cp(&v[0]), cp(&v[1]), cp(&v[2])],
+        _ => v,
+    }
+}
+
+fn to_wide(lo: u128, hi: u128) -> Wide {
+    [lo as u64, (lo >> 64) as u64, hi as u64, (hi >> 64) as u64]
+}
+
+// ------------------------------------------------------------------------------------------
+
+pub fn run(line: &str) -> Option<(String, Vec<String>)> {
+    let t = toks(line);
+    if t.len() < 7 || t[0] != "D" {
+        return None;
+    }
+    let tab = table();
+    let fm = tab.iter().find(|f| f.name == t[1])?;
+    let chans = ch_parse(t[2])?;
+    let prec = p_u32(t[3])?;
+    let precision = prec_of(prec)?;
+    let w = p_u32(t[4])? as usize;
+    let h = p_u32(t[5])? as usize;
+    if w == 0 || h == 0 || w * h > 1_048_576 {
+        return None;
+    }
+    let specs: Vec<Spec> = t[6..].iter().map(|s| Spec::parse(s)).collect::<Option<Vec<_>>>()?;
+    if specs.len() != if fm.planar.is_some() { 2 } else { 1 } {
+        return None;
+    }
+
+    // encoded bytes + the units as the oracle sees them
+    let mut data: Vec<u8> = vec![];
+    let units_per_row = (w + fm.ppu - 1) / fm.ppu;
+    let (cw, chh) = ((w + 1) / 2, (h + 1) / 2);
+    match fm.planar {
+        None => {
+            let bits = 8 * fm.unit_bytes;
+            for i in 0..(units_per_row * h) as u64 {
+                let u = specs[0].unit(i, bits);
+                data.extend_from_slice(&u.to_le_bytes()[..fm.unit_bytes]);
+            }
+        }
+        Some((p1, p2)) => {
+            for i in 0..(w * h) as u64 {
+                data.extend_from_slice(&specs[0].unit(i, 8 * p1).to_le_bytes()[..p1]);
+            }
+            for i in 0..(cw * chh) as u64 {
+                data.extend_from_slice(&specs[1].unit(i, 8 * p2).to_le_bytes()[..p2]);
+            }
+        }
+    }
+
+    let color = ColorFormat::new(chans, precision);
+    let bpp = color.bytes_per_pixel() as usize;
+    let nch = chans.count() as usize;
+    let mut out = vec![0xA5u8; w * h * bpp];
+    let view = ImageViewMut::new(&mut out, Size::new(w as u32, h as u32), color)?;
+    let mut reader = std::io::Cursor::new(&data[..]);
+    let res = decode(&mut reader, view, fm.format, &DecodeOptions::default());
+    let mut oracle = vec![];
+    if let Err(e) = res {
+        let d = format!("{e:?}");
+        let short: String = d.chars().take_while(|c| c.is_alphanumeric()).collect();
+        return Some((format!("err {short}"), vec![format!("decode failed: {d}")]));
+    }
+    if reader.position() as usize != data.len() {
+        oracle.push(format!("consumed {} of {} bytes", reader.position(), data.len()));
+    }
+    // values
+    let bytes_per_val = bpp / nch;
+    let vals: Vec<u32> = out
+        .chunks_exact(bytes_per_val)
+        .map(|c| match bytes_per_val {
+            1 => c[0] as u32,
+            2 => u16::from_ne_bytes([c[0], c[1]]) as u32,
+            _ => u32::from_ne_bytes([c[0], c[1], c[2], c[3]]),
+        })
+        .collect();
+    let mut s = String::with_capacity(4 + vals.len() * 9);
+    s.push_str("ok");
+    for &v in &vals {
+        s.push(' ');
+        if prec == 2 && is_nan(v) {
+            s.push_str("nan");
+        } else {
+            s.push_str(&format!("{v:x}"));
+        }
+    }
+
+    // oracle: every pixel against its ideal
+    let kinds = native_comp_kinds(fm);
+    'px: for y in 0..h {
+        for x in 0..w {
+            let (word, p) = match fm.planar {
+                None => {
+                    let i = (y * units_per_row + x / fm.ppu) as u64;
+                    (to_wide(specs[0].unit(i, 8 * fm.unit_bytes), 0), x % fm.ppu)
+                }
+                Some((p1, p2)) => {
+                    let l = specs[0].unit((y * w + x) as u64, 8 * p1);
+                    let c = specs[1].unit(((y / 2) * cw + x / 2) as u64, 8 * p2);
+                    (to_wide(l | (c << (8 * p1)), 0), 0)
+                }
+            };
+            let mut ex = ideal_pixel(fm, &word, p);
+            for (i, e) in ex.iter_mut().enumerate() {
+                e.class = class_for(fm, prec, kinds.get(i).copied().flatten(), e.class);
+            }
+            let ex = convert_expect(fm.native, chans, ex);
+            if ex.len() != nch {
+                oracle.push("channel count".into());
+                break 'px;
+            }
+            for (c, e) in ex.iter().enumerate() {
+                let o = vals[(y * w + x) * nch + c];
+                if let Err(msg) = check_channel(o, prec, e) {
+                    oracle.push(format!("pixel ({x},{y}) channel {c} unit {:x?}: {msg}", &word[..2]));
+                    if oracle.len() > 4 {
+                        break 'px;
+                    }
+                }
+            }
+        }
+    }
+    Some((s, oracle))
+}
+
+// ------------------------------------------------------------------------------------------
+// generator
+
+const F32_SPECIALS: &[u32] = &[
+    0x0000_0000, 0x8000_0000, 0x0000_0001, 0x8000_0001, 0x007f_ffff, 0x0080_0000, 0x3b00_0000, 0x3b80_8081, 0x3b80_8080,
+    0x3b00_8081, 0x3b00_8080, 0x3b00_8082, 0x3a80_0000, 0x3780_0080, 0x3700_0080, 0x3700_007f, 0x3700_0081, 0x3eff_ffff,
+    0x3f00_0000, 0x3f00_0001, 0x3f00_8081, 0x3f00_8080, 0x3f00_8082, 0x3f7f_ffff, 0x3f80_0000, 0x3f80_0001, 0x3f7f_7f7f,
+    0x3f7f_8080, 0x3f7f_ff80, 0x3f7f_ff7f, 0x3f7f_ff81, 0x4000_0000, 0x437f_0000, 0x477f_e000, 0x477f_ff00, 0x7f7f_ffff,
+    0xff7f_ffff, 0x7f80_0000, 0xff80_0000, 0x7fc0_0000, 0xffc0_0000, 0x7f80_0001, 0x7fa5_5a5a, 0xffff_ffff, 0xbf80_0000,
+    0xbf00_0000, 0x3300_0000, 0x3380_0000, 0x33ff_ffff, 0x3b7f_ffff,
+];
+const F16_SPECIALS: &[u32] = &[
+    0x0000, 0x8000, 0x0001, 0x8001, 0x03ff, 0x0400, 0x0401, 0x1c00, 0x1c04, 0x1c03, 0x1c05, 0x3800, 0x37ff, 0x3801, 0x3bff,
+    0x3c00, 0x3c01, 0x4000, 0x7bff, 0xfbff, 0x7c00, 0xfc00, 0x7e00, 0xfe00, 0x7c01, 0x7fff, 0xffff, 0xbc00, 0xb800, 0x0200,
+    0x0080, 0x1bff, 0x2000, 0x2e66,
+];
+
+struct Gen {
+    out: Vec<String>,
+    rng: Rng,
+}
+
+fn native_name(fm: &Fmt) -> &'static str {
+    ch_name(fm.native)
+}
+
+impl Gen {
+    fn shape(&mut self, units: usize, fm: &Fmt) -> (usize, usize) {
+        // a (w, h) whose unit count is exactly `units` for ppu = 1 formats
+        let _ = fm;
+        let hs: Vec<usize> = [1usize, 2, 4, 8, 16].iter().copied().filter(|h| units % h == 0).collect();
+        let h = *self.rng.pick(&hs);
+        (units / h, h)
+    }
+    fn push(&mut self, fm: &Fmt, ch: &str, prec: u32, w: usize, h: usize, spec: &str) {
+        self.out.push(format!("D {} {} {} {} {} {}", fm.name, ch, prec, w, h, spec));
+    }
+}
+
+pub fn gen(seed: u64, thorough: bool) -> Vec<String> {
+    let tab = table();
+    let mut g = Gen { out: vec![], rng: Rng::new(seed) };
+    const CH: usize = 256;
+
+    // A. exhaustive: every value of every format whose unit has at most 16 bits, all precisions
+    for fm in tab.iter().filter(|f| f.unit_bytes <= 2 && f.planar.is_none()) {
+        let total = 1usize << (8 * fm.unit_bytes);
+        for prec in 0..3 {
+            let mut start = 0;
+            while start < total {
+                let n = CH.min(total - start);
+                let (w, h) = if fm.ppu == 8 {
+                    (n * 8, 1)
+                } else {
+                    g.shape(n, fm)
+                };
+                let spec = format!("S:{start}");
+                g.push(fm, native_name(fm), prec, w, h, &spec);
+                start += n;
+            }
+        }
+    }
+
+    // B. per field: all values of the field, other bits 0 / all ones / random
+    for fm in tab.iter().filter(|f| f.unit_bytes > 2 || f.planar.is_some()) {
+        let bits = 8 * fm.unit_bytes;
+        for fld in &fm.fields {
+            // sweep windows: the field itself, or for 32-bit fields its upper and lower half
+            let windows: Vec<(u32, u32)> = if fld.width == 32 {
+                vec![(fld.off + 16, 16), (fld.off, 16), (fld.off + 8, 16)]
+            } else if fm.color != Color::Direct && fld.kind == Kind::Yuv && fld.width == 10 && fld.off % 16 == 6 {
+                // 10 significant bits in a 16-bit container: sweep the container (low bits ignored)
+                vec![(fld.off - 6, 16)]
+            } else {
+                vec![(fld.off, fld.width)]
+            };
+            for (woff, wwidth) in windows {
+                let total = 1usize << wwidth;
+                let nbases = if thorough { 4 } else { 3 };
+                for b in 0..nbases {
+                    let base: u128 = match b {
+                        0 => 0,
+                        1 => u128::MAX,
+                        _ => (g.rng.next() as u128) | ((g.rng.next() as u128) << 64),
+                    };
+                    let base = mask_bits(base, bits);
+                    // chunk starts
+                    let mut starts: Vec<usize> = vec![];
+                    if total <= 4096 || thorough {
+                        starts = (0..total).step_by(CH).collect();
+                    } else {
+                        for s in [0usize, 0x3b00, 0x3c00, 0x7b00, 0x7c00, 0x7f00, 0x8000, 0xbc00, 0xfb00, 0xff00] {
+                            starts.push(s);
+                        }
+                        for _ in 0..6 {
+                            starts.push((g.rng.below(256) as usize) * 256);
+                        }
+                        starts.sort();
+                        starts.dedup();
+                    }
+                    for prec in 0..3 {
+                        for &start in &starts {
+                            let n = CH.min(total - start.min(total)).max(1);
+                            match fm.planar {
+                                None => {
+                                    let spec = format!("W:{woff}:{wwidth}:{base:x}:{start}");
+                                    let (w, h) = if fm.ppu == 2 {
+                                        // n blocks in one row, odd or even width
+                                        let odd = g.rng.chance(1, 2);
+                                        if n % 4 == 0 && g.rng.chance(1, 2) {
+                                            ((n / 4) * 2 - odd as usize, 4)
+                                        } else {
+                                            (n * 2 - odd as usize, 1)
+                                        }
+                                    } else {
+                                        g.shape(n, fm)
+                                    };
+                                    g.push(fm, native_name(fm), prec, w, h, &spec);
+                                }
+                                Some((p1, _p2)) => {
+                                    let p1b = 8 * p1 as u32;
+                                    if woff < p1b {
+                                        // luma sweep: 16 x 16 luma samples, random chroma
+                                        let s1 = format!("W:{woff}:{wwidth}:{:x}:{start}", mask_bits(base, p1b as usize));
+                                        let s2 = format!("R:{}", g.rng.next() % 1000);
+                                        g.out.push(format!("D {} {} {} 16 16 {} {}", fm.name, native_name(fm), prec, s1, s2));
+                                    } else {
+                                        // chroma sweep: 256 chroma samples = 32x32 / 31x31 / 32x31 / 31x32 pixels
+                                        let s2 = format!("W:{}:{wwidth}:{:x}:{start}", woff - p1b, base >> p1b);
+                                        let s1 = format!("R:{}", g.rng.next() % 1000);
+                                        let w = 32 - g.rng.below(2) as usize;
+                                        let h = 32 - g.rng.below(2) as usize;
+                                        g.out.push(format!("D {} {} {} {} {} {} {}", fm.name, native_name(fm), prec, w, h, s1, s2));
+                                    }
+                                }
+                            }
+                        }
+                    }
+                }
+            }
+        }
+    }
+
+    // C. random full words, all geometries (odd / even widths and heights), native and other channels
+    let dims: &[(usize, usize)] = &[
+        (1, 1), (2, 1), (3, 1), (1, 2), (1, 3), (2, 2), (3, 3), (4, 3), (5, 2), (5, 5), (7, 4), (8, 8), (9, 3), (15, 2), (16, 5),
+        (17, 3), (31, 2), (33, 3), (64, 4), (63, 5), (65, 2), (255, 1), (257, 2), (1025, 1),
+    ];
+    let all_ch = [Channels::Grayscale, Channels::Alpha, Channels::Rgb, Channels::Rgba];
+    let rounds = if thorough { 40 } else { 3 };
+    for fm in &tab {
+        for round in 0..rounds {
+            for &(w, h) in dims {
+                for prec in 0..3 {
+                    let chans: Vec<Channels> = if round == 0 {
+                        let mut v = vec![fm.native];
+                        if fm.native != Channels::Rgba {
+                            v.push(Channels::Rgba);
+                        }
+                        v
+                    } else {
+                        vec![*g.rng.pick(&all_ch)]
+                    };
+                    for ch in chans {
+                        let s1 = format!("R:{}", g.rng.next() % 1_000_000);
+                        let line = if fm.planar.is_some() {
+                            format!("D {} {} {} {} {} {} R:{}", fm.name, ch_name(ch), prec, w, h, s1, g.rng.next() % 1_000_000)
+                        } else {
+                            format!("D {} {} {} {} {} {}", fm.name, ch_name(ch), prec, w, h, s1)
+                        };
+                        g.out.push(line);
+                    }
+                }
+            }
+        }
+    }
+
+    // D. float specials in every float field (others: specials too, rotated)
+    for fm in tab.iter().filter(|f| f.fields.iter().any(|x| matches!(x.kind, Kind::Half | Kind::F32 | Kind::F11 | Kind::F10))) {
+        let kind = fm.fields[0].kind;
+        let specials: Vec<u32> = match kind {
+            Kind::F32 => F32_SPECIALS.to_vec(),
+            Kind::Half => F16_SPECIALS.to_vec(),
+            _ => F16_SPECIALS.iter().map(|x| x >> 4).collect(),
+        };
+        let n = specials.len();
+        let mut units: Vec<String> = vec![];
+        for i in 0..n {
+            let mut u: u128 = 0;
+            for (k, fld) in fm.fields.iter().enumerate() {
+                let v = specials[(i + k * 7) % n] as u128 & ((1u128 << fld.width) - 1);
+                u |= v << fld.off;
+            }
+            units.push(format!("{u:x}"));
+        }
+        for prec in 0..3 {
+            for ch in [fm.native, Channels::Rgba] {
+                g.out.push(format!("D {} {} {} {} 1 H:{}", fm.name, ch_name(ch), prec, n, units.join(",")));
+            }
+        }
+    }
+    // f32 -> integer near rounding ties: x = (k + 1/2) / max and its binary32 neighbours
+    {
+        let fm = tab.iter().find(|f| f.name == "R32_FLOAT").unwrap();
+        for (prec, max) in [(0u32, 255i128), (1, 65535)] {
+            let ks: Vec<i128> = if max == 255 {
+                (0..255).collect()
+            } else {
+                let mut v: Vec<i128> = (0..64).collect();
+                v.extend((0..if thorough { 4000 } else { 600 }).map(|_| g.rng.below(65535) as i128));
+                v.extend([32767, 32768, 65533, 65534]);
+                v
+            };
+            let mut units: Vec<String> = vec![];
+            for k in ks {
+                let b = round_f32(2 * k + 1, 2 * max);
+                for d in [-2i64, -1, 0, 1, 2] {
+                    units.push(format!("{:x}", (b as i64 + d) as u32));
+                }
+            }
+            for chunk in units.chunks(CH) {
+                g.out.push(format!("D {} gray {} {} 1 H:{}", fm.name, prec, chunk.len(), chunk.join(",")));
+            }
+        }
+    }
+    // balance the work of check.py's contiguous chunks: deterministic Fisher-Yates shuffle
+    let mut out = g.out;
+    let mut rng = Rng::new(seed ^ 0xC04);
+    for i in (1..out.len()).rev() {
+        let j = rng.below(i as u64 + 1) as usize;
+        out.swap(i, j);
+    }
+    out
 }
